@@ -342,6 +342,39 @@ pub fn generated_psets(thorough: bool) -> Vec<(String, Pset)> {
     for c in crate::props::c03::sig_cases(false).iter().step_by(211) {
         out.push(("from_tx".into(), Pset::from_tx(crate::oracle::model::to_tx(&c.tx))));
     }
+    // PSETs produced by the combiner: a PSET merged with itself, and two descendants of one base (each with scalars
+    // pushed in a different order, partial signatures, proprietary pairs) merged in both directions
+    {
+        let mut merged: Vec<(String, Pset)> = Vec::new();
+        for (o, p) in out.iter().filter(|(o, _)| o.starts_with("covering") || o.starts_with("single")).step_by(if thorough { 3 } else { 17 }) {
+            let mut q = p.clone();
+            if q.merge(p.clone()).is_ok() {
+                merged.push((format!("merged/self/{}", o.split('/').next().unwrap_or("")), q));
+            }
+        }
+        let base = base_pset(2, 2, 0);
+        let mut d1 = base.clone();
+        let mut d2 = base.clone();
+        for v in [0u64, 1, 2] {
+            d1.global.scalars.push(gen::tweak(4100 + v));
+        }
+        for v in [2u64, 0, 3] {
+            d2.global.scalars.push(gen::tweak(4100 + v));
+        }
+        d1.inputs_mut()[0].partial_sigs.insert(crate::psetgen::btc_pk(1), vec![0x30, 1]);
+        d2.inputs_mut()[1].partial_sigs.insert(crate::psetgen::btc_pk(2), vec![0x30, 2]);
+        d2.global.proprietary.insert(crate::psetgen::prop_key(9), vec![9]);
+        for (name, a, b) in [("merged/d1<-d2", &d1, &d2), ("merged/d2<-d1", &d2, &d1), ("merged/d1<-d1", &d1, &d1), ("merged/base<-d2", &base, &d2)] {
+            let mut q = a.clone();
+            if q.merge(b.clone()).is_ok() {
+                let mut q2 = q.clone();
+                let _ = q2.merge(a.clone());
+                merged.push((name.to_string(), q));
+                merged.push((format!("{}<-again", name), q2));
+            }
+        }
+        out.extend(merged);
+    }
     out
 }
 
@@ -609,7 +642,7 @@ pub fn run(r: &Report) {
          all-absent / all-present, map sizes 1 and 2, shapes 0..2 inputs x 0..2 outputs x 3 base variants (plain / issuance / pegin \
          first input), 7 output modes (explicit, marked, fully blinded, commitments only, explicit amount + committed asset, committed amount + explicit asset, marked with an uncompressed blinding key), compressed and uncompressed public keys in every key-carrying field, every single field alone with both \
          values, tap trees of every shape with <= 5 leaves (distinct and duplicate scripts, mixed leaf versions), byte-vector lengths 0/1/75/76/252..256/65535/65536 in every field codec that frames one (tap-tree leaves in 3 positions, scripts, witness items, signatures, proprietary / unknown keys and values), ELIP-100/102 accessors (plus every accessor-call history of length <= 3 (4) over 10 operations incl. overwrites, against a map model, in memory and after a serialization hop), \
-         PSETs from from_tx; byte side per encoding: all orderings of the pairs of each map with <= 4 pairs (adjacent transpositions + \
+         PSETs from from_tx and from the combiner (self-merges, two descendants merged in both directions); byte side per encoding: all orderings of the pairs of each map with <= 4 pairs (adjacent transpositions + \
          reversal otherwise), duplication and deletion of every pair, same-key-different-value, input/output count +-1, a map removed / \
          appended, corrupted preimage and preimage key, and the 1-deviation neighbourhood; oracle: accepted => decode(encode(decode b)) \
          equal and second re-encoding identical; listed fault classes must be refused. non-trivial = distinct valid PSET encodings",
